@@ -145,6 +145,17 @@ func c14Scenarios(thorough bool) []c14Scenario {
 			{Op: "drain"},
 			{Op: "completion", Doc: "main.journal", Line: 4, Char: 11},
 		}},
+		// the document is closed and opened again with the same text around the save:
+		// the analysis of the first session must not record its tree for the second
+		{Name: "S10-closed-and-opened-again-around-a-save", Files: files, Bound: b(2, 3), Msgs: []wire.Msg{
+			{Op: "open", Doc: "main.journal", Text: c14Main1},
+			{Op: "close", Doc: "main.journal"},
+			{Op: "savefile", Doc: "inc.journal", Text: c14Inc1},
+			{Op: "open", Doc: "main.journal", Text: c14Main1},
+			{Op: "completion", Doc: "main.journal", Line: 8, Char: 11},
+			{Op: "drain"},
+			{Op: "completion", Doc: "main.journal", Line: 8, Char: 11},
+		}},
 		{Name: "S4-two-docs-semantic-tokens", Files: files, Bound: b(1, 2), Msgs: []wire.Msg{
 			{Op: "open", Doc: "main.journal", Text: c14Main0},
 			{Op: "open", Doc: "inc.journal", Text: c14Inc0},
